@@ -228,6 +228,8 @@ def run_history(ctx, kind, data, fmt, ops, tmpdir, rng):
             if not applicable(kind, op):
                 continue
             name = op[0]
+            if kind == "raw_fifo" and name == "open" and m.open:
+                continue  # (opening a named pipe a second time blocks for ever once its writer is gone: a hang is not a verdict)
             w = {"case": case, "op_index": i, "op": list(op), "model_pos": m.pos}
             ctx.count("ops_" + name)
             if name == "open":
